@@ -57,6 +57,10 @@ Six batches, {n} changes, each written by a fresh agent that saw only the proper
 `tools/seedverify.sh` (builds, the package's existing tests pass with the change, the agent's demonstration fails with it and passes
 without it) and run through the claimed check with `tools/seedcheck.sh` (`VERIF_REPO=<scratch worktree>`). "⇒" marks a change the
 check missed or could only report as no-failing-input-found on the first run, and what the strengthened check says now.
+`tools/seedall.sh` re-runs every seeded change against the current tree (result lines in `seeded/RESULTS.txt` and, per change,
+`recheck_current_tree` in its meta.json): of the first 56, 50 are caught with a concrete replay, five patches no longer apply
+(the code they change was rewritten by later `fix:` commits) and one (C04a) has become harmless — since fix ab1f47b no live
+session is ever in state Closed, and the agent's own demonstration passes with the change applied.
 (Regenerate this table and §0.3 with `tools/mkdesign.py`.)
 
 | Seeded | Property | Change | Result |
